@@ -60,6 +60,7 @@ static void zoo(rng& g, char const* name, E const& base, bool thorough)
         c.cfg.densfam = fam;
         c.plan = make_plan(g);
         c.dists = g.below(2) == 0;
+        c.md = c.cfg.d + g.below(3); // more coordinates than random numbers: the consumption follows the random numbers
         run_mc<T>(c, engine, w, iters);
     }
 }
@@ -80,7 +81,27 @@ static void scripted_family(rng& g)
         c.cfg.d = 1 + (std::size_t) fam % 2;
         c.cfg.densfam = 0;
         c.plan = make_plan(g);
+        c.md = fam == 2 ? 3 : 0;
+        c.dists = fam != 0;
         run_mc<T>(c, engine, w, std::vector<std::size_t>{0, 1, 5, 16, 40});
+    }
+    // the same scripted outputs for PLAIN and VEGAS: an exact zero is a number like any other
+    {
+        call_ctx<T> c;
+        c.cfg.kind = "plain";
+        c.cfg.d = 2;
+        c.plan = make_plan(g);
+        run_plain<T>(c, engine, std::vector<std::size_t>{0, 1, 5, 16, 40});
+    }
+    for (std::size_t d = 1; d <= 2; ++d)
+    {
+        hep::vegas_pdf<T> pdf(d, 4);
+        for (std::size_t j = 0; j != d; ++j) { pdf.set_bin_left(j, 1, T(0.0625)); pdf.set_bin_left(j, 2, T(0.25)); pdf.set_bin_left(j, 3, T(0.5)); }
+        call_ctx<T> c;
+        c.cfg.kind = "vegas";
+        c.plan = make_plan(g);
+        c.dists = d == 2;
+        run_vegas<T>(c, engine, pdf, std::vector<std::size_t>{0, 1, 5, 16, 40}, T(1.5));
     }
 }
 
